@@ -413,6 +413,8 @@ impl<T, E> Topic<T, E> {
         &&& self.sink.wf()
         &&& (self.buffered_item is Some ==> self.accepted().len() > 0 && self.accepted().last() == self.buffered_item->Some_0)
         &&& forall|i: int| 0 <= i < self.sink.entries@.len() ==> (#[trigger] self.sink.entries@[i]).0 < self.next_sink_id
+        // an id names one publisher stream for the life of the topic
+        &&& forall|k: usize| #[trigger] self.stream.ever().contains(k) ==> k < self.next_stream_id
         // fewer than 2^64 registrations over the life of a topic (stated assumption): counters never wrap
         &&& self.next_sink_id + self.next_stream_id + self.handle.budget() < usize::MAX
     }
